@@ -363,7 +363,16 @@ def run_args(res, shard):
                 variants += [("dask", "map-reduce", (3, 3)), ("dask", "cohorts", (2, 2, 2))]
                 if lname in ("sorted", "float-nan-sorted"):
                     variants.append(("dask", "blockwise", (2, 2, 2)))
-            for func in funcs + ARG_SCANS:
+            import pandas as pd
+
+            # a RangeIndex shorter than the largest label: codes beyond it are rewritten to -1 - in a copy, never in the caller's labels
+            int_labels = by.dtype.kind == "i"
+            for func in funcs + ARG_SCANS + ([("range", f) for f in ("sum", "nanmax", "count", "nanargmax", "nanfirst", "nanvar")] if int_labels else []):
+                use_range = isinstance(func, tuple)
+                if use_range:
+                    func = func[1]
+                    if func in ("any", "all") or (dtype == "bool" and func == "nanvar"):
+                        continue
                 for how, method, chunks in variants:
                     if quick and how == "dask" and engine in ("numba",) and func not in ("nanvar", "nanmax", "sum", "nanfirst", "nancumsum", "ffill"):
                         continue
@@ -380,14 +389,17 @@ def run_args(res, shard):
                             kw["finalize_kwargs"] = dict(q=0.25)
                         if how == "dask":
                             kw["method"] = method
-                        out = e1.call_reduce(a, by, func=func, engine=engine, expected_groups=expected, fill_value=0, **kw)
+                        byarg = by
+                        if use_range and how == "dask" and method == "map-reduce":
+                            byarg = e1.make_dask(by, (chunks,))  # the label blocks of the graph are views of the caller's array
+                        out = e1.call_reduce(a, byarg, func=func, engine=engine, expected_groups=pd.RangeIndex(2) if use_range else expected, fill_value=0, **kw)
                     res.evaluations += 1
                     res.transitions += 1
                     res.compared += 1
                     res.states += 1
                     res.nontrivial += 1
-                    case = dict(leg="args", engine=engine, dtype=dtype, func=func, labels=lname, layout=layout, how=how, method=method)
-                    tags = dict(leg2="args", engine=engine, dtype=dtype, func=func, layout=layout, how=how, method=str(method))
+                    case = dict(leg="args", engine=engine, dtype=dtype, func=func, labels=lname, layout=layout, how=how, method=method, expected="RangeIndex(2)" if use_range else "ndarray")
+                    tags = dict(leg2="args", engine=engine, dtype=dtype, func=func, layout=layout, how=how, method=str(method), rangeindex=use_range)
                     changed = []
                     if out.kind == "error" and out.exc == "InputMutated":
                         changed.append(out.msg)
@@ -419,6 +431,9 @@ BASES = [
     dict(kind="scan", func="nancumsum", chunks=(2, 2, 2)),
     dict(kind="reduce", func="sum", method=None, chunks=(2, 2, 2), expected=True, fill=0.0, kwargs={}),
     dict(kind="reduce", func="nanmax", method="map-reduce", chunks=(3,), expected=True, fill=-1.0, kwargs=dict(axis=-1), labels2d=True),
+    # members 2**24, 1, 1 of one group inside one block: the sum depends on the dtype the block stage accumulates in
+    # (float32 data; float32: 16777216, float64: 16777218), so results that differ only in dtype= must not share their block layer
+    dict(kind="reduce", func="sum", method="map-reduce", chunks=(3, 3), expected=False, fill=None, kwargs={}, seq=True, big=True),
 ]
 
 
@@ -444,6 +459,8 @@ def variants(base):
         out.append(("fill_value", dict(base, fill=-2.0)))
         out.append(("expected_groups", dict(base, alt_expected=True)))
     out.append(("dtype", dict(base, kwargs=dict(kw, dtype="float32"))))
+    if base.get("big"):
+        out.append(("dtype64", dict(base, kwargs=dict(kw, dtype="float64"))))  # float32 data accumulated in float64
     if base["method"] in ("map-reduce", None):
         out.append(("method", dict(base, method="cohorts")))
         out.append(("reindex", dict(base, kwargs=dict(kw, reindex=False))))
@@ -457,6 +474,8 @@ def build_lazy(cfg):
 
     s = shared()
     V = s["values"] * (-2.0 if cfg.get("alt_values") else 1.0)
+    if cfg.get("big"):
+        V = np.array([[16777216.0, 1.0, 1.0, 3.5, 0.25, 7.0], [1.0, 16777216.0, 1.0, NAN, 4.0, -3.0]], dtype="float32") * np.float32(-2.0 if cfg.get("alt_values") else 1.0)
     L = s["labels_seqA"].astype(float) if cfg.get("seq") else s["labels"]
     if cfg.get("alt_labels"):
         L = L[::-1].copy() if not cfg.get("seq") else s["labels_seqB"].astype(float)
@@ -524,11 +543,16 @@ def run_cocompute(res, shard):
                 tasks.setdefault(k, (i, dg))
         try:
             alone = [np.asarray(dask.compute(x, scheduler="sync")[0]) for x in lazies]
-            together = [np.asarray(x) for x in dask.compute(*lazies, scheduler="sync")]
-            rev = [np.asarray(x) for x in dask.compute(*lazies[::-1], scheduler="sync")][::-1]
         except e1.REFUSALS as e:
             res.outcomes[f"refused-at-compute:{type(e).__name__}"] += 1
             continue
+        except Exception as e:
+            res.outcomes[f"error-at-compute-alone:{type(e).__name__}"] += 1
+            continue
+        try:
+            # every result computes on its own: whatever the merged graph raises is caused by merging
+            together = [np.asarray(x) for x in dask.compute(*lazies, scheduler="sync")]
+            rev = [np.asarray(x) for x in dask.compute(*lazies[::-1], scheduler="sync")][::-1]
         except Exception as e:
             res.outcomes["error-at-compute"] += 1
             res.violate("cocompute-error", case, dict(exc=type(e).__name__, msg=str(e)[:200], key_collisions=problems[:2]), "results computed together",
